@@ -64,6 +64,7 @@ type c01Stmt struct {
 	Keys []string
 	Grps []*c01Stmt // tNode (container/list), tGrouping: scoped groupings
 	Kids []*c01Stmt // tNode kids, tGrouping body, tAugment body
+	Orig *c01Stmt   // set on copies: the statement this one was (transitively) copied from
 	// tUses
 	Target *c01Stmt
 	OwnPfx bool // print the own-module prefix when the target is local and module-level
@@ -485,6 +486,19 @@ func c01DumpDef(d meta.Definition) string {
 
 // ---------- deep copy keeping uses->grouping pointers consistent ----------
 
+// c01Root: the statement s was first copied from (s itself when it is no copy). Refactorings only
+// ever copy statements and rewrite them meaning-preservingly, so two groupings with one root have
+// the same meaning; two groupings with different roots are different definitions even when they
+// carry the same NAME (names of scoped groupings are only unique within their scope chain).
+func c01Root(s *c01Stmt) *c01Stmt {
+	if s != nil && s.Orig != nil {
+		return s.Orig
+	}
+	return s
+}
+
+func c01Same(a, b *c01Stmt) bool { return c01Root(a) == c01Root(b) }
+
 type c01Cloner struct{ m map[*c01Stmt]*c01Stmt }
 
 func (c *c01Cloner) stmts(l []*c01Stmt) []*c01Stmt {
@@ -512,6 +526,7 @@ func (c *c01Cloner) stmt(s *c01Stmt) *c01Stmt {
 	n := &c01Stmt{}
 	c.m[s] = n
 	*n = *s
+	n.Orig = c01Root(s)
 	n.P = c01CopyProps(s.P)
 	n.Keys = append([]string(nil), s.Keys...)
 	n.Path = append([]string(nil), s.Path...)
